@@ -128,3 +128,14 @@ Example C04loc_ledger_eqs_nonvacuous :
   end.
 Proof. vm_compute. repeat split; reflexivity. Qed.
 Print Assumptions C04loc_ledger_eqs_nonvacuous.
+
+(** the tour satisfies [hist_ok] and the name premises *)
+Example C04loc_premises_nonvacuous :
+  hist_ok x_n0 w_tour /\ noslash nameA /\ noslash nameB.
+Proof.
+  split; [|split; intros X; vm_compute in X; repeat (destruct X as [X|X]; [discriminate X|]); exact X].
+  split; [exact x_n0_init|]. split; [exact x_names_nodup|].
+  unfold w_tour, y_credit. cbn [app].
+  split; [repeat constructor; cbn; unfold wfp; cbn; try exact I; reflexivity|repeat constructor].
+Qed.
+Print Assumptions C04loc_premises_nonvacuous.
